@@ -257,6 +257,9 @@ class PropertyDescriptor(Symbol):
             attr._clear()
             for v in values:
                 attr._add_item(v, inferred=False)
+            # The relations that put inferred items into the field are still in the graph: keep those items.
+            for v in list(attr._inferred_items):
+                attr._update(v)
         else:
             setattr(obj, self.private_attr_name, value)
             self.add_relation_to_the_graph(obj, value)
